@@ -31,6 +31,12 @@ type Session struct {
 // NewSession creates and connects a network client (TCP or RTUNet) with the given total read timeout; with hooks, a Recorder is
 // installed whose calls each Call returns.
 func NewSession(kind string, readTimeoutMs int, hooks bool) (*Session, error) {
+	return NewSessionWith(kind, readTimeoutMs, hooks, false)
+}
+
+// NewSessionWith is NewSession; with explicitParser the configuration names the protocol's standard response parser explicitly
+// (see Scenario.ExplicitParser).
+func NewSessionWith(kind string, readTimeoutMs int, hooks, explicitParser bool) (*Session, error) {
 	if IsSerial(kind) {
 		return nil, fmt.Errorf("harness: sessions are for network clients")
 	}
@@ -50,8 +56,14 @@ func NewSession(kind string, readTimeoutMs int, hooks bool) (*Session, error) {
 		conf.Hooks = s.rec
 	}
 	if kind == TCP {
+		if explicitParser {
+			conf.ParseResponseFunc = packet.ParseTCPResponse
+		}
 		s.client = modbus.NewTCPClientWithConfig(conf)
 	} else {
+		if explicitParser {
+			conf.ParseResponseFunc = packet.ParseRTUResponseWithCRC
+		}
 		s.client = modbus.NewRTUClientWithConfig(conf)
 	}
 	if err := s.client.Connect(context.Background(), "script:1"); err != nil {
